@@ -2,8 +2,8 @@
 from ..rules import folds
 from .common import declare
 
-RULES = ['BATCH-PURE', 'INITIAL-NEUTRAL', 'FOLD-DERIVE', 'AGG-TABLE', 'REDUCER-NAME', 'STATE-PLUMB', 'FOLD-PURE']
-FLOORS = {'FOLD-DERIVE': 14, 'AGG-TABLE': 19, 'REDUCER-NAME': 25, 'STATE-PLUMB': 10, 'FOLD-PURE': 50}
+RULES = ['BATCH-PURE', 'INITIAL-NEUTRAL', 'FOLD-DERIVE', 'AGG-TABLE', 'REDUCER-NAME', 'STATE-PLUMB', 'FOLD-PURE', 'OPERATOR-TABLE']
+FLOORS = {'FOLD-DERIVE': 14, 'AGG-TABLE': 19, 'REDUCER-NAME': 25, 'STATE-PLUMB': 10, 'FOLD-PURE': 50, 'OPERATOR-TABLE': 30}
 
 META = {
     'level': "Static analysis of the fold structure only: every state component returned by Aggregation.on_new and by the "
@@ -20,7 +20,7 @@ META = {
 
 def run(ctx, R):
     R.explanation = 'Structure of the aggregation folds in streamz/dataframe: derivation of state, naming conventions, plumbing.'
-    R.not_decided = ['numeric equality with pandas (dtype, NaN, empty-frame conventions)', 'map_partitions per-batch semantics']
+    R.not_decided = ['numeric equality with pandas (dtype, NaN, empty-frame conventions)', 'what pandas computes for a given operator on a batch']
     declare(R, folds.RULES, RULES, FLOORS)
     R.run(folds.check_fold_derive, ctx, R, steps=('on_new',))
     R.run(folds.check_agg_table, ctx, R)
@@ -29,6 +29,11 @@ def run(ctx, R):
     R.run(folds.check_fold_pure, ctx, R)
     R.run(folds.check_batch_pure, ctx, R)
     R.run(folds.check_initial_neutral, ctx, R)
+    R.run(folds.check_operator_table, ctx, R)
 
 
+META['level'] += (" Elementwise expressions: each of the operator methods of OperatorMixin maps to the operator function and operand "
+                  "order the Python data model prescribes, and map_partitions' partial_by_order re-inserts the non-stream arguments at "
+                  "their recorded positions (OPERATOR-TABLE).")
+META['technique'] += " + exhaustive table check of the operator methods against the Python data model (OPERATOR-TABLE)"
 META['level'] += " Also: per-batch functions do not mutate the batch they are given (BATCH-PURE) and initial() performs no arithmetic on the first batch's values (INITIAL-NEUTRAL)."
